@@ -153,11 +153,19 @@ def build_world(tmpdir):
     cns_path = os.path.join(tmpdir, "smpl.cns")
     from skgenome import tabio
     tabio.write(cns, cns_path, "tab")
+    # a table as the BED reader delivers it (gene and strand columns present), for the writers
+    bed_path = os.path.join(tmpdir, "regions.bed")
+    with open(bed_path, "w") as f:
+        for chrom, start, end, gene in baits[:14]:
+            f.write(f"{chrom}\t{start}\t{end}\t{gene}\t0\t+\n")
+    bedarr = tabio.read(bed_path, "bed")
+    wdir = os.path.join(tmpdir, "written")
+    os.makedirs(wdir, exist_ok=True)
     return {
         "cnr": cnr, "cns": cns, "targets": targets, "access": access, "tcov": tcov, "acov": acov, "ref": ref,
         "flt_cn": ["cn"], "flt_ci_cn": ["ci", "cn"], "flt_sem_ampdel": ["sem", "ampdel"], "flt_ampdel": ["ampdel"],
         "thresholds": [-1.1, -0.25, 0.2, 0.7],
-        "seg_fnames": [cns_path],
+        "seg_fnames": [cns_path], "bedarr": bedarr, "wdir": wdir,
         "stats_loc": ["mean", "median"], "stats_spread": ["stdev", "mad", "iqr"], "stats_int": ["ci", "pi"],
     }
 
@@ -171,6 +179,14 @@ def _center(cnr, est):
     c = cnr.copy()
     c.center_all(estimator=est)
     return c
+
+
+def _written(w, obj, fmt):
+    from skgenome import tabio
+    path = os.path.join(w["wdir"], f"{obj}.{fmt}.out")
+    tabio.write(w[obj], path, fmt)
+    with open(path, "rb") as f:
+        return f.read()
 
 
 def _shuffled(arr):
@@ -253,6 +269,12 @@ def _menu():
     add("intersection", "cnr-cns", ["cnr", "cns"], lambda w, p: w["cnr"].intersection(w["cns"]))
     add("subdivide", "targets", ["targets"], lambda w, p: w["targets"].subdivide(300, 50))
     add("resize", "targets", ["targets"], lambda w, p: w["targets"].resize_ranges(120))
+    # the table writers: the file written is the result; the array handed to the writer must stay untouched
+    for fmt, obj in (("tab", "cnr"), ("tab", "bedarr"), ("bed", "bedarr"), ("bed3", "bedarr"), ("bed4", "bedarr"),
+                     ("interval", "bedarr"), ("interval", "targets"), ("text", "bedarr"), ("text", "targets"),
+                     ("seg", "cns"), ("bed4", "cnr")):
+        add("tabio_write", f"{fmt}-{obj}", [obj],
+            lambda w, p, fmt=fmt, obj=obj: _written(w, obj, fmt))
     add("by_arm", "cnr", ["cnr"], lambda w, p: _iter_groups(w["cnr"].by_arm(min_gap_size=1400, min_arm_bins=10)))
     add("by_gene", "cnr", ["cnr"], lambda w, p: _iter_groups(w["cnr"].by_gene()))
     add("shuffle_copy", "cnr", ["cnr"], lambda w, p: _shuffled(w["cnr"]), stochastic=True)
